@@ -5,8 +5,12 @@
 //!
 //! usage: rxh-conc <seed> <iterations> <strategy: random|pct> < scenarios.txt
 //! output: one line per DISTINCT execution:  <scenario-id> | seed=<s> out=<ok|deadlock|panic|steps> | <payload>
+#[path = "../../seq/src/core.rs"]
+mod core;
 #[path = "../../seq/src/sexp.rs"]
 mod sexp;
+#[path = "../../seq/src/value.rs"]
+mod value;
 mod obs;
 mod pipe;
 mod queue;
@@ -58,14 +62,21 @@ pub fn execute(seed: u64, strategy: &str, body: Arc<dyn Fn() + Send + Sync>) -> 
   config.max_steps = shuttle::MaxSteps::FailAfter(200_000);
   config.failure_persistence = shuttle::FailurePersistence::None;
   config.stack_size = 1 << 20;
+  let pct = strategy == "pct";
   let run = move || {
     facade::reset();
-    let clock = shuttle::thread::Builder::new().name("verif-clock".to_string()).spawn(facade::clock_task).expect("clock");
+    // task ids: 0 = main, 1 = clock (a no-op task under PCT, which runs untimed scenarios only)
+    let clock = if pct {
+      shuttle::thread::Builder::new().name("verif-clock".to_string()).spawn(|| {}).expect("clock")
+    } else {
+      shuttle::thread::Builder::new().name("verif-clock".to_string()).spawn(facade::clock_task).expect("clock")
+    };
     body();
     let _ = clock;
+    facade::reset_clock_sync();
   };
-  let r = if strategy == "pct" {
-    let s = ClockAware(PctScheduler::new_from_seed(seed, 3, 1));
+  let r = if pct {
+    let s = PctScheduler::new_from_seed(seed, 3, 1);
     catch_unwind(AssertUnwindSafe(|| shuttle::Runner::new(s, config).run(run)))
   } else {
     let s = ClockAware(RandomScheduler::new_from_seed(seed, 1));
@@ -92,6 +103,10 @@ pub fn execute(seed: u64, strategy: &str, body: Arc<dyn Fn() + Send + Sync>) -> 
 
 /// a scenario turns one execution's outcome into the payload text that is compared / co-simulated
 pub trait Scenario: Send + Sync {
+  /// uses the virtual clock (sleep / settle): explored with the random scheduler only
+  fn timed(&self) -> bool {
+    false
+  }
   fn body(&self) -> Arc<dyn Fn() + Send + Sync>;
   fn render(&self, out: &Outcome) -> String;
 }
@@ -155,7 +170,9 @@ fn main() {
     let mut order: Vec<String> = Vec::new();
     for i in 0..iters {
       let s = if exact { seed } else { seed.wrapping_mul(1_000_003).wrapping_add(i) };
-      let strat = if strategy == "mixed" {
+      let strat = if sc.timed() {
+        "random"
+      } else if strategy == "mixed" {
         if i % 3 == 2 {
           "pct"
         } else {
